@@ -176,9 +176,20 @@ U1Nested(z) == {[allOf |-> <<[anyOf |-> <<e, f>>]>>] : e \in {PA, [required |-> 
             \cup {[anyOf |-> <<[allOf |-> <<PA, FalseS>>], PB>>], [oneOf |-> <<[not |-> PA], PB>>],
                   [allOf |-> <<[properties |-> [a |-> [properties |-> [b |-> TrueS]]]]>>],
                   [allOf |-> <<[unevaluatedProperties |-> FalseS] @@ PA>>]}
-U1Schemas(z) == {u @@ x : u \in UnevP, x \in IF K >= 2 THEN UNION {U1Inplace(0), Pairs(U1Inplace(0)), U1Nested(0), U1Child} ELSE UNION {U1Inplace(0), U1Nested(0), U1Child}}
+\* the keyword BELOW the root, beside a $ref that leaves its subtree: the scope of unevaluated* is dynamic (what
+\* the referenced schema evaluates through its own in-place applicators counts), not lexical
+U1DeepBases == {PB, [allOf |-> <<PB>>], [anyOf |-> <<PB, PA>>], [oneOf |-> <<PB>>], [if |-> PB, then |-> TrueS], [dependentSchemas |-> [b |-> PB]],
+                [defs |-> [y |-> PB], ref |-> LocalRef(FragPtr(<<SegN("defs", "base"), SegN("defs", "y")>>))],
+                [allOf |-> <<[anyOf |-> <<PB>>]>>]}
+U1Deep == UNION {{[defs |-> [base |-> b], properties |-> [a |-> [ref |-> LocalRef(PtrDefs("base"))] @@ u]],
+                  [defs |-> [base |-> b], allOf |-> <<[ref |-> LocalRef(PtrDefs("base"))] @@ u>>],
+                  [defs |-> [base |-> b], additionalProperties |-> [ref |-> LocalRef(PtrDefs("base"))] @@ u],
+                  [defs |-> [base |-> b, mid |-> [ref |-> LocalRef(PtrDefs("base"))] @@ u], properties |-> [a |-> [ref |-> LocalRef(PtrDefs("mid"))]]]}
+                 : u \in UnevP, b \in U1DeepBases}
+U1Schemas(z) == U1Deep \cup {u @@ x : u \in UnevP, x \in IF K >= 2 THEN UNION {U1Inplace(0), Pairs(U1Inplace(0)), U1Nested(0), U1Child} ELSE UNION {U1Inplace(0), U1Nested(0), U1Child}}
 U1Vals == {Obj(m) : m \in MapsOf({"a", "b", "c"}, {Num(R_1), Str("a")}, 0, 3)}
           \cup {Obj([a |-> Obj([b |-> Num(R_1), c |-> Num(R_1)]), b |-> Num(R_1)]), Num(R_1)}
+          \cup {Obj([a |-> x]) : x \in {Obj([b |-> Num(R_1)]), Obj([b |-> Str("a")]), EmptyObj, Obj([c |-> Num(R_1)]), Obj([b |-> Num(R_1), c |-> Str("a")])}}
 
 \* ------------------------------------------------------------ U2 unevaluatedItems
 ItemSubs ==
@@ -325,7 +336,13 @@ DyActM(i, chain, hk, fin, rem) ==
      ELSE IF pos = Len(chain) THEN DyFinal(fin)
      ELSE HopToM(i, chain[pos + 1], hk, rem)
 DyAct(i, chain, hk, fin) == DyActM(i, chain, hk, fin, {})
+\* hop kind "dref" ($dynamicRef WITHOUT a fragment, which behaves exactly like $ref): the entered resources carry
+\* a $dynamicAnchor "m" on their ROOT and the root document declares "m" as well (on $defs/u, strings only) -
+\* a fragment-less reference is never re-bound, whatever its target declares
+DyRootAnchor(hk) == IF hk = "dref" THEN [dynamicAnchor |-> "m"] ELSE <<>>
+DyOuterM(hk) == IF hk = "dref" THEN [u |-> [dynamicAnchor |-> "m", type |-> "string"]] ELSE <<>>
 DyResM(i, kinds, chain, hk, fin, withId, rem) ==
+  DyRootAnchor(hk) @@
   (IF withId THEN [id |-> IdOf(RelRef(<<RN[i]>>))] ELSE <<>>)
   @@ (IF hk = "inner" THEN [defs |-> [t |-> TNode(kinds[i + 1], i), e |-> DyActM(i, chain, hk, fin, rem)]]
       ELSE [defs |-> [t |-> TNode(kinds[i + 1], i)]] @@ DyActM(i, chain, hk, fin, rem))
@@ -333,16 +350,16 @@ DyRes(i, kinds, chain, hk, fin, withId) == DyResM(i, kinds, chain, hk, fin, with
 DyRootURI == URI("http", "h1", TRUE, <<"root.json">>)
 DyEmbedded(kinds, chain, hk, fin) ==
   [docs |-> <<[uri |-> DyRootURI,
-               s |-> [defs |-> [t |-> TNode(kinds[1], 0)] @@ [i \in {RN[j] : j \in 1..K} |->
+               s |-> [defs |-> [t |-> TNode(kinds[1], 0)] @@ DyOuterM(hk) @@ [i \in {RN[j] : j \in 1..K} |->
                                     DyRes(CHOOSE j \in 1..K : RN[j] = i, kinds, chain, hk, fin, TRUE)]]
                      @@ DyAct(0, chain, hk, fin)]>>]
 DyRemote(kinds, chain, hk, fin) ==
-  [docs |-> <<[uri |-> DyRootURI, s |-> [defs |-> [t |-> TNode(kinds[1], 0)]] @@ DyAct(0, chain, hk, fin)]>>
+  [docs |-> <<[uri |-> DyRootURI, s |-> [defs |-> [t |-> TNode(kinds[1], 0)] @@ DyOuterM(hk)] @@ DyAct(0, chain, hk, fin)]>>
              \o [j \in 1..K |-> [uri |-> URI("http", "h1", TRUE, <<RN[j]>>), s |-> DyRes(j, kinds, chain, hk, fin, FALSE)]]]
 DyMixed(kinds, chain, hk, fin, rem) ==
   LET remSeq == SelectSeq([j \in 1..K |-> j], LAMBDA j : j \in rem)
   IN [docs |-> <<[uri |-> DyRootURI,
-                  s |-> [defs |-> [t |-> TNode(kinds[1], 0)] @@ [i \in {RN[j] : j \in (1..K) \ rem} |->
+                  s |-> [defs |-> [t |-> TNode(kinds[1], 0)] @@ DyOuterM(hk) @@ [i \in {RN[j] : j \in (1..K) \ rem} |->
                                        DyResM(CHOOSE j \in 1..K : RN[j] = i, kinds, chain, hk, fin, TRUE, rem)]]
                         @@ DyActM(0, chain, hk, fin, rem)]>>
                 \o [x \in DOMAIN remSeq |-> [uri |-> URI("http", "h1", TRUE, <<RN[remSeq[x]]>>),
